@@ -75,6 +75,14 @@ func c09Workloads(quick bool) []replWorkload {
 	gap = append(gap, at(8000*ms, z(hapi.Cmd{Type: 1, Req: 40, Key: 40, Id: 1, Expried: 600})))
 	small := func(c *hapi.Config) { c.RewriteSz = 12 + 64*3; c.FileBuf = 64 }
 	ws = append(ws, replWorkload{Name: "rotations-before-join", Steps: gap, JoinAt: 5000 * ms, EndAt: 30 * sec, LeaderMod: small, FollowerMod: small, Sparse: true, CutStride: 7})
+	// the same with a ring of four records and further records while a cut-off follower waits to reconnect: its
+	// position is no longer in the ring, the leader makes it start over
+	gap2 := append([]TStep{}, gap...)
+	for i := 0; i < 6; i++ {
+		gap2 = append(gap2, at(6000*ms+int64(i)*300*ms, z(hapi.Cmd{Type: 1, Req: byte(50 + i), Key: byte(50 + i), Id: 1, Expried: 600})))
+	}
+	smallRing := func(c *hapi.Config) { c.RewriteSz = 12 + 64*3; c.FileBuf = 64; c.RingSz = 256; c.RingMaxSz = 256 }
+	ws = append(ws, replWorkload{Name: "rotations-before-join-small-ring", Steps: gap2, JoinAt: 5000 * ms, EndAt: 40 * sec, LeaderMod: smallRing, FollowerMod: small, Sparse: true, CutStride: 7})
 	// a slow follower: 600 records become readable at once (more than the follower's 256 receive buffers)
 	ws = append(ws, replWorkload{Name: "burst-of-600-records", Steps: base, JoinAt: 2500 * ms, EndAt: 40 * sec, Burst: 600, BurstAt: 12 * sec, Sparse: true})
 	// values larger than the sender's 4096-byte batch buffer, right behind small records about the same key: a
